@@ -443,6 +443,12 @@ impl<'data> MergedStringsSection<'data> {
             try_spawn_input_processing(&resources, s);
         });
 
+        crate::verif_ev!(
+            "MERGE_END",
+            resources.num_input_groups,
+            resources.finished_buckets.len(),
+            reuse_pool.available.load(Ordering::Relaxed)
+        );
         // Check if we got any errors. We only look at the first error.
         if let Some(error) = resources.errors.pop() {
             return Err(error);
@@ -554,6 +560,12 @@ impl<'scope, 'data: 'scope, 'offsets> SplitResources<'data, 'offsets, 'scope> {
         let mut lock = self.strings_by_bucket_and_group[string_bucket_offset(input, bucket)]
             .lock()
             .unwrap();
+        crate::verif_ev!(
+            "SLOT_SET",
+            input,
+            bucket,
+            (lock.verif_state() << 4) | slot.verif_state()
+        );
         replace(&mut lock, slot)
     }
 }
@@ -576,6 +588,7 @@ fn try_spawn_input_processing<'scope>(
                 let _ = resources.errors.push(error);
             }
 
+            crate::verif_ev!("INPUT_TASK_END", reservation.remaining, 0, 0);
             resources.reuse_pool.unreserve(reservation);
         });
     }
@@ -585,6 +598,17 @@ enum StringsSlot<'data, 'offsets> {
     Empty,
     WaitingForStrings(Box<MergeStringsSectionBucket<'data>>),
     Strings(Vec<StringToMerge<'data, 'offsets>>),
+}
+
+#[cfg(wild_verif)]
+impl StringsSlot<'_, '_> {
+    fn verif_state(&self) -> u64 {
+        match self {
+            StringsSlot::Empty => 0,
+            StringsSlot::WaitingForStrings(_) => 1,
+            StringsSlot::Strings(_) => 2,
+        }
+    }
 }
 
 fn create_split_resources<'data, 'offsets, 'scope>(
@@ -622,6 +646,12 @@ fn create_split_resources<'data, 'offsets, 'scope>(
     let mut finished_shards = Vec::new();
     finished_shards.resize_with(num_groups, || AtomicCell::new(None));
 
+    crate::verif_ev!(
+        "MERGE_BEGIN",
+        num_groups,
+        reuse_pool.capacity,
+        reuse_pool.available.load(Ordering::Relaxed)
+    );
     let resources = SplitResources {
         num_input_groups: unprocessed.len(),
         unprocessed,
@@ -753,6 +783,7 @@ impl ReusePool {
         let r = self.string_vecs.push(reuse_vec(strings_to_merge));
         assert!(r.is_ok());
 
+        crate::verif_ev!("POOL_RETURN", 1, 0, 0);
         self.available.fetch_add(1, Ordering::Relaxed);
     }
 
@@ -761,9 +792,11 @@ impl ReusePool {
     fn try_reserve(&self, num_vecs: usize) -> Result<PoolReservation, ()> {
         let available = self.available.load(Ordering::Relaxed);
         if available < num_vecs {
+            crate::verif_ev!("RESERVE_FAIL", available, num_vecs, 0);
             return Err(());
         }
 
+        crate::verif_perturb!("window: try_reserve between load and cas");
         if self
             .available
             .compare_exchange(
@@ -774,9 +807,11 @@ impl ReusePool {
             )
             .is_err()
         {
+            crate::verif_ev!("RESERVE_FAIL", available, num_vecs, 1);
             return Err(());
         }
 
+        crate::verif_ev!("RESERVE_OK", available, num_vecs, 0);
         Ok(PoolReservation {
             remaining: num_vecs,
         })
@@ -787,6 +822,7 @@ impl ReusePool {
         if reservation.remaining == 0 {
             return;
         }
+        crate::verif_ev!("UNRESERVE", reservation.remaining, 0, 0);
         self.available
             .fetch_add(reservation.remaining, Ordering::Relaxed);
     }
@@ -816,6 +852,7 @@ fn process_input_section_group<'data, 'offsets, 'scope>(
     reservation: &mut PoolReservation,
 ) -> Result {
     verbose_timing_phase!("Split and hash");
+    crate::verif_ev!("INPUT_BEGIN", group_in.index, 0, 0);
 
     let mut buckets: [Vec<StringToMerge<'data, 'offsets>>; MERGE_STRING_BUCKETS] = [();
         MERGE_STRING_BUCKETS]
@@ -834,6 +871,7 @@ fn process_input_section_group<'data, 'offsets, 'scope>(
     resources.finished_shards[group_in.index].store(Some(group_in.offsets_shard));
 
     for (i, bucket_out) in buckets.iter_mut().enumerate() {
+        crate::verif_perturb!("window: before strings slot swap");
         let prev_slot =
             resources.swap_strings_slot(group_in.index, i, StringsSlot::Strings(take(bucket_out)));
         if let StringsSlot::WaitingForStrings(bucket) = prev_slot {
@@ -859,6 +897,7 @@ fn work_with_bucket<'data, 'scope>(
     let mut overflowed_offsets = resources.overflowed_offsets.get_or_default().borrow_mut();
 
     while bucket.next_input_group_index < resources.num_input_groups {
+        crate::verif_perturb!("window: bucket before slot lock");
         let mut strings_to_merge = {
             let group_index = bucket.next_input_group_index;
 
@@ -869,9 +908,11 @@ fn work_with_bucket<'data, 'scope>(
 
             let slot = replace(&mut *lock, StringsSlot::Empty);
             let StringsSlot::Strings(strings) = slot else {
+                crate::verif_ev!("BUCKET_PARK", group_index, bucket.index, slot.verif_state());
                 *lock = StringsSlot::WaitingForStrings(bucket);
                 return Ok(());
             };
+            crate::verif_ev!("BUCKET_TAKE", group_index, bucket.index, strings.len());
 
             strings
         };
@@ -889,6 +930,7 @@ fn work_with_bucket<'data, 'scope>(
     }
 
     // This bucket has now processed all input sections, so it's done.
+    crate::verif_ev!("BUCKET_DONE", bucket.index, bucket.next_input_group_index, 0);
     let _ = resources.finished_buckets.push(bucket);
     Ok(())
 }
